@@ -435,6 +435,13 @@ PROPS["C16"]["tiers"]["thorough"]["watchdog"] = 1500
 PROPS["C16"]["level_note"] += "; thorough tier: the decoder enumeration and a small generated slice also run under Miri (cargo +nightly miri run -p mirislice), any Undefined Behaviour report is a violation"
 PROPS["C19"]["level_note"] += "; thorough tier: signal / exit-status conversions also run under Miri"
 
+# memcheck overlay (thorough tier): the production binary inside valgrind; the spawn / signal / kill / reap paths cross into C
+# (fork, pre_exec, setsid, killpg, waitid) where Miri cannot follow. Only timing-free rules are judged there.
+for _p in ("C08", "C18"):
+    PROPS[_p]["memcheck"] = {"script": "wxcli.py", "shards": 4, "tiers": ["thorough"], "args": {"valgrind": 1}}
+    PROPS[_p]["level_note"] += ("; thorough tier: the same binary also runs complete start / change / quit life cycles inside valgrind memcheck "
+                                "(parent and the forked child up to exec), any error block is a violation keyed by its first watchexec frame")
+
 # ThreadSanitizer overlay (thorough tier): the multi-threaded sender workload of the supervisor engine, built with
 # -Zsanitizer=thread -Zbuild-std; a race report whose racing access is in watchexec code and that repeats is a violation
 for _p in ("C04", "C07", "C10"):
